@@ -74,7 +74,7 @@ Proof.
   split; [|split; [|rewrite Hps; exact Hsadm]].
   - destruct (oc_write oc) as [[st an']|].
     + destruct (k_write k).
-      * rewrite aget_put_same. exists an'. unfold obj. cbn. rewrite Hw, Hst'. reflexivity.
+      * rewrite aget_put_same. exists an'. unfold obj. cbn. rewrite (proj1 Hw), Hst'. reflexivity.
       * exists an. exact Hapi.
     + exists an. exact Hapi.
   - rewrite Hmem, Hv. destruct Hadm as (_ & _ & _ & _ & _ & _ & a' & Has & _).
